@@ -302,9 +302,23 @@ func (r *stageRun) hook(point string, kv ...any) {
 	r.counts[point]++
 	if r.crash != nil && r.crash.Point == point && r.counts[point] == r.crash.K {
 		// crash image: copy the three directories while this goroutine is parked
+		// Other goroutines of the dying process stop at their next hook (they block on r.mu, which is
+		// held here, and then find their instance dead); the image is taken once the tree has stopped
+		// changing, so that it is a state between durable steps and not a torn copy.
 		img := filepath.Join(r.work, fmt.Sprintf("g%d", r.gen+1))
-		copyTree(r.root(), img)
 		r.dead[r.root()] = true
+		for try := 0; try < 50; try++ {
+			d0 := treeDigest(r.root())
+			time.Sleep(500 * time.Microsecond)
+			if treeDigest(r.root()) != d0 {
+				continue
+			}
+			os.RemoveAll(img)
+			copyTree(r.root(), img)
+			if treeDigest(r.root()) == d0 {
+				break
+			}
+		}
 		r.crash = nil
 		ch := r.crashCh
 		r.mu.Unlock()
@@ -312,6 +326,18 @@ func (r *stageRun) hook(point string, kv ...any) {
 		select {}
 	}
 	r.mu.Unlock()
+}
+
+// treeDigest identifies the state of a directory tree (names, sizes, modification times).
+func treeDigest(root string) string {
+	h := md5.New()
+	filepath.Walk(root, func(p string, info os.FileInfo, err error) error {
+		if err == nil {
+			fmt.Fprintf(h, "%s|%d|%d|%v\n", p, info.Size(), info.ModTime().UnixNano(), info.IsDir())
+		}
+		return nil
+	})
+	return fmt.Sprintf("%x", h.Sum(nil))
 }
 
 func copyTree(src, dst string) {
@@ -792,6 +818,7 @@ func stageMain(args []string) int {
 	out := fs.String("out", "", "summary json")
 	work := fs.String("work", "", "scratch directory")
 	crashAll := fs.Bool("crashall", false, "also run every scenario with a crash at every hook occurrence of every command")
+	crash2 := fs.Bool("crash2", false, "with -crashall: also a second crash at every hook occurrence of the Recover() that follows the first")
 	fs.Parse(args[1:])
 	if *work == "" {
 		d, _ := os.MkdirTemp("", "stsh-stage")
@@ -852,7 +879,33 @@ func stageMain(args []string) int {
 					// afterwards the sender asks and re-sends what is not held
 					v.Cmds = append(v.Cmds, sc.Cmds[ci+1:]...)
 					variants++
-					runOne(&v, nil)
+					if !*crash2 {
+						runOne(&v, nil)
+						continue
+					}
+					var vc []map[string]int
+					if !runOne(&v, &vc) || len(vc) <= ci {
+						continue
+					}
+					// repeated crashes: the recovery itself dies at each of its hook points, then runs again
+					rpts := make([]string, 0, len(vc[ci]))
+					for rp := range vc[ci] {
+						if rp != "stage.enq" && rp != "stage.done" {
+							rpts = append(rpts, rp)
+						}
+					}
+					sort.Strings(rpts)
+					for _, rp := range rpts {
+						for rk := 1; rk <= vc[ci][rp]; rk++ {
+							v2 := sScenario{ID: v.ID*100 + variants%100, U: sc.U}
+							v2.Cmds = append([]sCmd{}, v.Cmds[:ci+2]...)
+							v2.Cmds[ci+1].Crash = &sCrash{Point: rp, K: rk}
+							v2.Cmds = append(v2.Cmds, sCmd{Op: "recover"})
+							v2.Cmds = append(v2.Cmds, v.Cmds[ci+2:]...)
+							variants++
+							runOne(&v2, nil)
+						}
+					}
 				}
 			}
 		}
